@@ -21,6 +21,9 @@ Print Assumptions C07_ising_step_covers_chain.
 Theorem C07_ising_step_periodic : forall L, (1 < L)%nat -> ising_bonds L true = ising_bonds L false ++ [(0, L - 1)%nat].
 Proof. exact ising_bonds_periodic. Qed.
 Print Assumptions C07_ising_step_periodic.
+Theorem C07_heisenberg_step_covers_chain : forall L g, g <> HRz -> Permutation (bonds_of g (heis_step L false)) (chain_bonds L).
+Proof. exact heis_couplings_cover_chain. Qed.
+Print Assumptions C07_heisenberg_step_covers_chain.
 
 (* MPO.hamiltonian / ising / heisenberg: the term list handed to from_pauli_sum (tied to the real builders by capturing that
    argument) couples every nearest-neighbour bond exactly once per two-body entry — plus the wrap-around bond when periodic —
